@@ -1441,48 +1441,64 @@ var g = &grammar{
 			expr: &actionExpr{
 				pos: position{line: 374, col: 17, offset: 11682},
 				run: (*parser).callonBaseTypeName1,
-				expr: &choiceExpr{
-					pos: position{line: 374, col: 18, offset: 11683},
-					alternatives: []interface{}{
-						&litMatcher{
-							pos:        position{line: 374, col: 18, offset: 11683},
-							val:        "bool",
-							ignoreCase: false,
+				expr: &seqExpr{
+					pos: position{line: 374, col: 17, offset: 11682},
+					exprs: []interface{}{
+						&choiceExpr{
+							pos: position{line: 374, col: 18, offset: 11683},
+							alternatives: []interface{}{
+								&litMatcher{
+									pos:        position{line: 374, col: 18, offset: 11683},
+									val:        "bool",
+									ignoreCase: false,
+								},
+								&litMatcher{
+									pos:        position{line: 374, col: 27, offset: 11692},
+									val:        "byte",
+									ignoreCase: false,
+								},
+								&litMatcher{
+									pos:        position{line: 374, col: 36, offset: 11701},
+									val:        "i16",
+									ignoreCase: false,
+								},
+								&litMatcher{
+									pos:        position{line: 374, col: 44, offset: 11709},
+									val:        "i32",
+									ignoreCase: false,
+								},
+								&litMatcher{
+									pos:        position{line: 374, col: 52, offset: 11717},
+									val:        "i64",
+									ignoreCase: false,
+								},
+								&litMatcher{
+									pos:        position{line: 374, col: 60, offset: 11725},
+									val:        "double",
+									ignoreCase: false,
+								},
+								&litMatcher{
+									pos:        position{line: 374, col: 71, offset: 11736},
+									val:        "string",
+									ignoreCase: false,
+								},
+								&litMatcher{
+									pos:        position{line: 374, col: 82, offset: 11747},
+									val:        "binary",
+									ignoreCase: false,
+								},
+							},
 						},
-						&litMatcher{
-							pos:        position{line: 374, col: 27, offset: 11692},
-							val:        "byte",
-							ignoreCase: false,
-						},
-						&litMatcher{
-							pos:        position{line: 374, col: 36, offset: 11701},
-							val:        "i16",
-							ignoreCase: false,
-						},
-						&litMatcher{
-							pos:        position{line: 374, col: 44, offset: 11709},
-							val:        "i32",
-							ignoreCase: false,
-						},
-						&litMatcher{
-							pos:        position{line: 374, col: 52, offset: 11717},
-							val:        "i64",
-							ignoreCase: false,
-						},
-						&litMatcher{
-							pos:        position{line: 374, col: 60, offset: 11725},
-							val:        "double",
-							ignoreCase: false,
-						},
-						&litMatcher{
-							pos:        position{line: 374, col: 71, offset: 11736},
-							val:        "string",
-							ignoreCase: false,
-						},
-						&litMatcher{
-							pos:        position{line: 374, col: 82, offset: 11747},
-							val:        "binary",
-							ignoreCase: false,
+						&notExpr{
+							pos: position{line: 374, col: 92, offset: 11757},
+							expr: &charClassMatcher{
+								pos:        position{line: 374, col: 93, offset: 11758},
+								val:        "[A-Za-z0-9._]",
+								chars:      []rune{'.', '_'},
+								ranges:     []rune{'A', 'Z', 'a', 'z', '0', '9'},
+								ignoreCase: false,
+								inverted:   false,
+							},
 						},
 					},
 				},
